@@ -211,8 +211,11 @@ type item struct {
 const nilID = math.MinInt64 + 12345 // ID reported for a nil node
 
 func wbits(w float64) uint64 {
-	if math.IsNaN(w) {
+	switch {
+	case math.IsNaN(w):
 		return 0x7ff8000000000001
+	case w == 0:
+		return 0 // -0 and +0 are the same weight (gonum compares weights with ==)
 	}
 	return math.Float64bits(w)
 }
